@@ -340,6 +340,15 @@ pub fn parse_duration(input: &str) -> (r: Result<Duration, Error>)
               "AccountContact", "Certificate", "Identifier", "SubjectAttributes"]:
         u.take(C, t, "config", keep_derives=("Eq", "Hash", "PartialEq", "Clone") if t == "HookType" else ())
     u.raw("config", SPEC)
+    u.raw("config", """
+// the built-in defaults are the documented ones (acmed.toml(5)): the contracts above speak of `the default`, this says which
+pub proof fn documented_defaults()
+    ensures
+        crate::DEFAULT_HOOK_ALLOW_FAILURE == false, //@C10.a_hook_may_fail_only_when_allow_failure_says_so_by_default_it_may_not
+        crate::DEFAULT_CERT_FILE_MODE == 0o644 && crate::DEFAULT_PK_FILE_MODE == 0o600, //@C13.default_modes_are_0644_and_0600
+        crate::DEFAULT_CERT_RENEW_DELAY == 30 * 24 * 60 * 60 && crate::DEFAULT_CERT_RANDOM_EARLY_RENEW == 0, //@C06.default_renew_delay_is_30_days_no_early_renewal,C14.default_renew_delay_is_30_days_no_early_renewal
+{}
+""")
     u.raw("config", CNF_SHIMS, trusted=True)
     from unit import fmt_to_cat
     def fmt_rw(m):
@@ -365,7 +374,7 @@ pub fn parse_duration(input: &str) -> (r: Result<Duration, Error>)
     u.ghost_call("read_to_string", quals=("fs",))
     u.macro_as_fn(C, "set_cfg_attr", "config",
                   "pub fn set_cfg_attr__fn<T>(to__: &mut Option<T>, from__: Option<T>)\n"
-                  "    ensures *final(to__) == later(*old(to__), from__), //@C14.set_cfg_attr_takes_the_later_value",
+                  "    ensures *final(to__) == later(*old(to__), from__), //@C14.set_cfg_attr_takes_the_later_value,C13.set_cfg_attr_takes_the_later_value,C18.set_cfg_attr_takes_the_later_value,C06.set_cfg_attr_takes_the_later_value",
                   {"to": "*to__", "from": "from__"}, "crate::config::set_cfg_attr__fn(&mut $to, $from)")
     u.module("acme_proto", "")
     u.module("acme_proto::structs", "")
